@@ -283,7 +283,21 @@ let () =
              (match c.r with
               | None -> ()
               | Some r ->
-                  (match trstep r l with
+                  (* the model does not accept the observed choice of a persistence round: report it, then
+                     let the model take the round its own way, so that the specification oracles (which
+                     depend on the history only) keep judging what the implementation shows afterwards *)
+                  let stepped = match trstep r l with
+                    | Some r' -> Some r'
+                    | None ->
+                        (match l with
+                         | THPBegin _ ->
+                             c.mism <- c.mism + 1;
+                             Printf.printf "MISMATCH case=%d seed=%s step=%d label=%s kinds=tmodel:not-enabled\n  the model does not accept the observed persist choice; it continues with its own\n"
+                               c.id c.seed c.steps (Sexp.head lsx);
+                             List.fold_left (fun acc ch -> match acc with Some _ -> acc | None -> trstep r (THPBegin ch))
+                               None [PAppend; PCompact O; PNoop]
+                         | _ -> None) in
+                  (match stepped with
                    | None ->
                        c.mism <- c.mism + 1; c.r <- None;
                        Printf.printf "MISMATCH case=%d seed=%s step=%d label=%s kinds=tmodel:not-enabled\n"
